@@ -291,6 +291,14 @@ def bounded(arg):
                 if outcomes != want:
                     record('regex verdict differs from re.search' + (' [proxied operand]' if wrap != (False, False) else ''),
                            'assert_regex', 'pattern %r text %r wrap %r' % (pattern, text, wrap), want, outcomes)
+    # a pattern that is not a regular expression: the relation cannot be evaluated, so neither assertion may pass - or raise
+    for pattern in ('(', '[a-', '*a'):
+        for wrap in wraps2:
+            outcomes = [run_assert(fn_name, (pattern, 'abc'), wrap)[0] for fn_name in ('assert_regex', 'assert_not_regex')]
+            evaluations += 2
+            if outcomes != ['failing', 'failing']:
+                record('invalid pattern does not count as failing' + (' [proxied operand]' if wrap != (False, False) else ''),
+                       'assert_regex', 'pattern %r text %r wrap %r' % (pattern, 'abc', wrap), ['failing', 'failing'], outcomes)
     # output containment: exact, or "only lowercased" as documented - and the negated check is its complement
     from pedal.core.commands import contextualize_report as _ctx
     from pedal.sandbox.commands import run as _run, get_sandbox as _get_sandbox, clear_sandbox as _clear_sb
